@@ -51,9 +51,16 @@ fn no_comp() -> CompCfg {
 type CallOut = Result<Vec<u8>, (Code, String)>;
 
 async fn one_call(ch: &tonic::transport::Channel, id: u64) -> Option<CallOut> {
+    one_call_with_timeout(ch, id, None).await
+}
+
+async fn one_call_with_timeout(ch: &tonic::transport::Channel, id: u64, timeout: Option<Duration>) -> Option<CallOut> {
     let mut client = crate::rawsvc::raw_client::RawClient::new(ch.clone());
     let mut req = tonic::Request::new(RawMsg(Bytes::from_static(b"ping")));
     req.metadata_mut().insert("sim-call", id.to_string().parse().unwrap());
+    if let Some(t) = timeout {
+        req.set_timeout(t);
+    }
     match tokio::time::timeout(Duration::from_secs(120), client.unary(req)).await {
         Err(_) => None,
         Ok(r) => Some(r.map(|x| x.into_inner().0.to_vec()).map_err(|e| (e.code(), e.message().to_string()))),
@@ -173,14 +180,26 @@ pub fn run_script(sim: &Sim, idx: u64) {
             }
             let before = connector.n_attempts();
             let ids: Vec<u64> = (0..ncalls).map(|_| { call_id += 1; call_id }).collect();
+            // a call may carry a deadline that has already passed (zero): it may then end as
+            // CANCELLED "Timeout expired" instead of its normal outcome, but it is dispatched like
+            // any other call: whatever connection attempt it triggers is accounted to it, and
+            // nothing of it may linger for the next call
+            let zero_deadline = ncalls == 1 && sim.chance(1, 6);
+            if zero_deadline {
+                sim.fault("call-with-zero-deadline");
+            }
             let outs: Vec<Option<CallOut>> = if ncalls == 2 {
                 let (a, b) = tokio::join!(one_call(&ch, ids[0]), one_call(&ch, ids[1]));
                 vec![a, b]
             } else {
-                vec![one_call(&ch, ids[0]).await]
+                vec![one_call_with_timeout(&ch, ids[0], if zero_deadline { Some(Duration::ZERO) } else { None }).await]
             };
             for (k, o) in outs.iter().enumerate() {
                 sim.ev(|| format!("call {} -> {:?} (expected success={})", ids[k], o, expect[k]));
+                if zero_deadline && matches!(o, Some(Err((Code::Cancelled, m))) if m == "Timeout expired") {
+                    sim.probe("zero-deadline-call-timed-out");
+                    continue;
+                }
                 match (o, expect[k]) {
                     (None, _) => {
                         v14(sim, "call-hangs", format!("call {} did not complete within 120 virtual seconds (letter {l:?})", ids[k]));
